@@ -38,6 +38,7 @@ import (
 func init() {
 	commands["config"] = configMain
 	commands["config-child"] = configChild
+	commands["config-bastion-child"] = configBastionChild
 }
 
 type refusingTransport struct{}
@@ -102,6 +103,72 @@ func configChild(args []string) error {
 		say("RESULT serving")
 	} else {
 		say("RESULT failed %s", strings.ReplaceAll(merr.Error(), "\n", " "))
+	}
+	return nil
+}
+
+// configBastionChild runs the real omniwitness.Main on a configuration with a bastion that IS there (a stub in this process), waits for the
+// service to dial it, and submits, for every entry of the configuration, a checkpoint of that origin that nobody signed: an endpoint that knows
+// the log answers 403 (no valid signature), one that does not answers 404. -poll 0 switches polling off (a bastion-only witness).
+func configBastionChild(args []string) error {
+	fs := flag.NewFlagSet("config-bastion-child", flag.ExitOnError)
+	yamlPath := fs.String("yaml", "", "configuration (empty = the embedded one)")
+	poll := fs.Duration("poll", 100*time.Millisecond, "feed interval (0 = polling off)")
+	_ = fs.Parse(args)
+	if *yamlPath != "" {
+		b, err := os.ReadFile(*yamlPath)
+		if err != nil {
+			return err
+		}
+		omniwitness.ConfigLogs = b
+	}
+	cfg := omniwitness.LogConfig{}
+	if err := yaml.Unmarshal(omniwitness.ConfigLogs, &cfg); err != nil {
+		return err
+	}
+	sb, err := newStubBastion(os.TempDir(), fmt.Sprintf("cfg-%d", os.Getpid()))
+	if err != nil {
+		return err
+	}
+	defer sb.close()
+	os.Setenv("SSL_CERT_FILE", sb.caFile)
+	os.Setenv("SSL_CERT_DIR", "/nonexistent")
+	w := world.New(world.Params{Logs: []string{"l1"}, MaxSize: 1, NBranch: 1, MaxLines: 6, NWitKeys: 2, Seed: 1, RunTag: "cfgb"})
+	signers, witV, err := witnessSigners(w)
+	if err != nil {
+		return err
+	}
+	ln, err := net.Listen("tcp", "127.0.0.1:0")
+	if err != nil {
+		return err
+	}
+	ctx, cancel := context.WithTimeout(context.Background(), 20*time.Second)
+	defer cancel()
+	bseed := sha256.Sum256([]byte("verif config child bastion key"))
+	done := make(chan error, 1)
+	go func() {
+		done <- omniwitness.Main(ctx, omniwitness.OperatorConfig{WitnessKeys: signers, WitnessVerifier: witV, FeedInterval: *poll,
+			RestDistributorBaseURL: "http://127.0.0.1:1", DistributeInterval: time.Hour,
+			BastionAddr: sb.addr(), BastionKey: ed25519.NewKeyFromSeed(bseed[:]), BastionRateLimit: 100000},
+			inmemory.NewPersistence(), ln, &http.Client{Transport: refusingTransport{}, Timeout: time.Second})
+	}()
+	_, cc, _, err := sb.accept(15 * time.Second)
+	if err != nil {
+		say("RESULT failed %v", err)
+		return nil
+	}
+	for _, l := range cfg.Logs {
+		root := ref.EmptyRoot()
+		text := ref.CheckpointText(l.Origin, 0, root[:], "")
+		body := "old 0\n\n" + text + "\n" + w.Unknown.SignLegacy(text)
+		st, _, _ := postVia(cc, []byte(body), 5*time.Second)
+		say("BASTION %d %s", st, l.Origin)
+	}
+	say("RESULT serving")
+	cancel()
+	select {
+	case <-done:
+	case <-time.After(5 * time.Second):
 	}
 	return nil
 }
@@ -187,6 +254,8 @@ type startEvent struct {
 	MapIDs         []string `json:"mapids"`
 	LogIDs         []string `json:"logids"`
 	Main           string   `json:"main"`
+	// BastionUnknown: entries whose origin the add-checkpoint endpoint inside Main does not know (404 instead of 403), with polling on and off
+	BastionUnknown []string `json:"bastionunknown"`
 	// Unpolled: logs with a feeder whose URL nobody asked for while Main ran (per environment of the child: default, GOMAXPROCS=1, GOMAXPROCS=2)
 	Unpolled []string   `json:"unpolled"`
 	Entries  []cfgEntry `json:"entries,omitempty"`
@@ -207,7 +276,7 @@ type idEvent struct {
 
 // checkShipped walks a configuration through the same functions Main uses, one step at a time.
 func checkShipped(self, name string, data []byte, yamlPath string) startEvent {
-	ev := startEvent{E: "start.shipped", Run: name, File: name, BadKeys: []string{}, UnknownFeeders: []string{}, FeederFailed: []string{}, Unpolled: []string{}, FeederPanicked: []string{},
+	ev := startEvent{E: "start.shipped", Run: name, File: name, BadKeys: []string{}, UnknownFeeders: []string{}, FeederFailed: []string{}, Unpolled: []string{}, BastionUnknown: []string{}, FeederPanicked: []string{},
 		FeederIDs: []string{}, MapIDs: []string{}, LogIDs: []string{}}
 	cfg := omniwitness.LogConfig{}
 	if err := yaml.Unmarshal(data, &cfg); err != nil {
@@ -285,6 +354,39 @@ func checkShipped(self, name string, data []byte, yamlPath string) startEvent {
 			}
 		}
 	}
+	// the add-checkpoint endpoint inside Main knows every entry, whether the witness polls its logs (poll interval > 0) or is bastion-only (0)
+	ev.BastionUnknown = []string{}
+	var bmu sync.Mutex
+	var bwg sync.WaitGroup
+	for _, poll := range []string{"100ms", "0"} {
+		bwg.Add(1)
+		go func(poll string) {
+			defer bwg.Done()
+			args := []string{"config-bastion-child", "-poll", poll}
+			if yamlPath != "" {
+				args = append(args, "-yaml", yamlPath)
+			}
+			out, _ := exec.Command(self, args...).CombinedOutput()
+			seen := 0
+			bmu.Lock()
+			defer bmu.Unlock()
+			for _, l := range strings.Split(string(out), "\n") {
+				var st int
+				if n, _ := fmt.Sscanf(l, "BASTION %d ", &st); n == 1 {
+					origin := strings.SplitN(l, " ", 3)[2]
+					seen++
+					if st != 403 {
+						ev.BastionUnknown = append(ev.BastionUnknown, fmt.Sprintf("%s: %d [poll interval %s]", origin, st, poll))
+					}
+				}
+			}
+			if seen != len(cfg.Logs) {
+				ev.BastionUnknown = append(ev.BastionUnknown, fmt.Sprintf("only %d of %d entries could be submitted [poll interval %s]: %s", seen, len(cfg.Logs), poll, tailOf(string(out), 300)))
+			}
+		}(poll)
+	}
+	bwg.Wait()
+	sort.Strings(ev.BastionUnknown)
 	return ev
 }
 
@@ -499,7 +601,7 @@ func configMain(args []string) error {
 		events = append(events, checkShipped(self, "logs_test.yaml", b, tpath))
 	} else {
 		events = append(events, startEvent{E: "start.shipped", Run: "logs_test.yaml", Detail: err.Error(), BadKeys: []string{}, UnknownFeeders: []string{"file missing"},
-			FeederFailed: []string{}, Unpolled: []string{}, FeederPanicked: []string{}, FeederIDs: []string{}, MapIDs: []string{}, LogIDs: []string{}})
+			FeederFailed: []string{}, Unpolled: []string{}, BastionUnknown: []string{}, FeederPanicked: []string{}, FeederIDs: []string{}, MapIDs: []string{}, LogIDs: []string{}})
 	}
 	// origins of the shipped configuration on every interface
 	w := world.New(world.Params{Logs: []string{"l1"}, MaxSize: 1, NBranch: 1, MaxLines: 6, NWitKeys: 2, Seed: 1, RunTag: "cfg"})
@@ -534,7 +636,7 @@ func configMain(args []string) error {
 				outcome, detail := runConfigChild(self, yp)
 				os.Remove(yp)
 				res[i] = startEvent{E: "start.generated", Run: fmt.Sprintf("g%d", i), K: i, Entries: g.Entries, Outcome: outcome, Detail: detail,
-					BadKeys: []string{}, UnknownFeeders: []string{}, FeederFailed: []string{}, Unpolled: []string{}, FeederPanicked: []string{}, FeederIDs: []string{}, MapIDs: []string{}, LogIDs: []string{}}
+					BadKeys: []string{}, UnknownFeeders: []string{}, FeederFailed: []string{}, Unpolled: []string{}, BastionUnknown: []string{}, FeederPanicked: []string{}, FeederIDs: []string{}, MapIDs: []string{}, LogIDs: []string{}}
 			}(i, g)
 		}
 		wg.Wait()
